@@ -2,9 +2,10 @@
    Model/Registry.v: (1) [select], the specification - a function of the backend argument, the
    with-stack, the argument types and the *set* of available backends only; (2) the state machine
    of BackendRegistryState (memo, lazily run factories, has_checked latch), which the
-   correspondence check compares with the real registry on random histories. *)
+   correspondence check compares with the real registry on random histories; (3) the refinement
+   theorem: for every history the state machine answers every lookup as [select] does. *)
 From Coq Require Import List ZArith Bool Arith Permutation.
-From EinxV Require Import Model.Registry Proofs.RegistryProofs.
+From EinxV Require Import Model.Registry Proofs.RegistryProofs Proofs.RegistryRefine.
 Import ListNotations.
 
 (* registration order is irrelevant *)
@@ -40,3 +41,43 @@ Example C11_example :
   /\ select [np; npl; tor] [] BNone [{| tfw := None |}] = OBackend np
   /\ select [np; npl] [] BNone [{| tfw := Some 2 |}] = OResolutionError.
 Proof. vm_compute. repeat split; reflexivity. Qed.
+
+(* The state machine refines the specification, for every history.  Backends are declared first - eagerly or to be created
+   on import of a module - under the hypotheses of the property (distinct names; a backend created on import of m is the
+   backend of m's tensors; no framework has both an eager and an on-import backend; a tensor type is only looked up once its
+   framework is imported).  Then for EVERY sequence of imports, with-blocks and lookups - whatever was looked up, memoised,
+   imported or found missing before - each lookup returns [select] applied to the backends available at that moment, the
+   current with-stack, the backend argument and the argument types: earlier lookups and the registration order do not matter. *)
+Theorem C11_every_history_follows_select : forall mods0 decls ops,
+  forallb is_decl decls = true ->
+  let eager := eager_of decls in
+  let lazy := lazy_of decls in
+  NoDup (map bname (eager ++ map snd lazy)) ->
+  NoDup (map bid (eager ++ map snd lazy)) ->
+  (forall m b, In (m, b) lazy -> bfw b = m) ->
+  (forall b m b', In b eager -> In (m, b') lazy -> bfw b <> m) ->
+  ops_ok eager lazy mods0 ops ->
+  snd (run_history (mods0, rinit) (decls ++ ops)) =
+  map (fun _ => ResNone) decls ++ spec_run eager lazy (mods0, []) ops.
+Proof. exact registry_refines_select. Qed.
+Print Assumptions C11_every_history_follows_select.
+
+(* non-vacuity: a history that meets the hypotheses, in which a lookup first misses the framework that is imported later,
+   is memoised, and later lookups see the lazily created backend, a with-block, and a left block *)
+Example C11_history_example :
+  let np := {| bid := 0; bname := numpy_name; bprio := (-1)%Z; bfw := 1; bvalid := true |} in
+  let tor := {| bid := 2; bname := 9; bprio := 0%Z; bfw := 2; bvalid := true |} in
+  let decls := [RRegister np; RRegisterOnImport 2 tor] in
+  let tn := {| tfw := Some 1 |} in let tt := {| tfw := Some 2 |} in
+  let ops := [RLookup BNone [tn]; RLookup (BName 9) []; RImport 2; RLookup BNone [tn; tt]; RLookup BNone [tn];
+              REnter np; RLookup BNone [tt]; RExit (Some np); RLookup (BName 9) []] in
+  (forallb is_decl decls = true /\ ops_ok (eager_of decls) (lazy_of decls) [1] ops /\
+   NoDup (map bname (eager_of decls ++ map snd (lazy_of decls))) /\ NoDup (map bid (eager_of decls ++ map snd (lazy_of decls))))
+  /\ snd (run_history ([1], rinit) (decls ++ ops)) =
+     [ResNone; ResNone; ResOutcome (OBackend np); ResOutcome OValueError; ResNone; ResOutcome (OBackend tor); ResOutcome (OBackend np);
+      ResNone; ResOutcome (OBackend np); ResNone; ResOutcome (OBackend tor)].
+Proof.
+  cbv zeta. split; [|vm_compute; reflexivity]. split; [reflexivity|]. split.
+  - cbn. repeat split; intros t m H E; repeat (destruct H as [<-|H]; [cbn in E; injection E as <-; cbn; tauto|]); destruct H.
+  - split; cbn; repeat constructor; cbn; intuition discriminate.
+Qed.
